@@ -24,7 +24,7 @@ UNDER = {"K-d": 1900.0, "K": 2000.0, "K+eps": 2000.2, "K-eps": 1999.8, "K+d": 21
 MARKS = {"normal": 0.05, "tiny": 0.0005, "missing": None}
 EXPIRIES = {"before": timedelta(hours=-1), "on-h2": timedelta(hours=2), "between-h2-h3": timedelta(hours=2, minutes=30), "on-h0": timedelta(0),
             "after": timedelta(hours=9)}
-HOLD = {"buy1": (1, 0), "buy3": (3, 0), "buy5sell2": (5, 2)}
+HOLD = {"buy1": (1, 0), "buy3": (3, 0), "buy5sell2": (5, 2), "far-first-buy2": (2, 0)}  # far-first: a later-expiring option is bought BEFORE this one
 
 
 def r6(x: Fraction) -> Fraction:
@@ -101,11 +101,13 @@ def run_case(case):
         h = int((ts - pd.Timestamp(T0)) / pd.Timedelta(hours=1)) if on_hour else None
         if h == 0:
             m.deposit(Decimal(5))
+            if case["hold"].startswith("far-first"):
+                m.buy("OTHER", Decimal(1))  # expires in 30 days; held before the option under test, so it comes first in the positions
             m.buy("OPT", Decimal(bought))
         if h == 1 and sold and (settle_h is None or settle_h > 1):  # a position settled at hour 0 / 1 cannot be sold at hour 1
             m.sell("OPT", Decimal(sold))
         # trade attempts on the other instrument: open bars must accept, closed bars must refuse
-        if case["co"] == "uni" and ts.minute in (0, 30) and ts >= pd.Timestamp(T0) + pd.Timedelta(hours=1):
+        if case["co"] == "uni" and ts.minute in (0, 1, 30) and ts >= pd.Timestamp(T0) + pd.Timedelta(hours=1):
             try:
                 m.buy("OTHER", Decimal(1))
                 obs["attempts"].append((snap.timestamp, on_hour, True, None))
@@ -113,6 +115,12 @@ def run_case(case):
                 obs["attempts"].append((snap.timestamp, on_hour, False, f"{type(e).__name__}: {e}"[:80]))
 
     def after_bar(st, snap):
+        ts = pd.Timestamp(snap.timestamp)
+        if case["co"] == "uni" and ts == ts.floor("1h") and ts >= pd.Timestamp(T0) + pd.Timedelta(hours=1):
+            try:
+                m.buy("OTHER", Decimal(1))  # a write AFTER the market update of an open bar; the next (minute) bar must still be closed
+            except Exception as e:  # noqa: BLE001
+                obs["attempts"].append((snap.timestamp, True, False, f"after_bar: {type(e).__name__}: {e}"[:80]))
         obs["bars"].append(snap.timestamp)
         obs["held_after_bar"].append("OPT" in m.positions)
         obs["cash_after_bar"].append(m.balance)
